@@ -240,6 +240,103 @@ pub fn h_mvreg_apply(inp: &Inp) -> u8 {
     }
 }
 
+//@ harness props=C06,C01,C09,C20 covers=3,4 name=MVReg apply on three concurrent stored values (one per actor, any counters, any stored order): a fourth write that observed any subset of them replaces exactly the observed ones; read() and the read context follow; re-delivery is a no-op
+#[no_mangle]
+pub fn h_mvreg_apply_3conc(inp: &Inp) -> u8 {
+    let mut i = In::new(inp);
+    // stored value j: written by actor j as its c[j]-th write, nothing else observed
+    let mut c = [0u64; 3];
+    let mut v = [0u8; 3];
+    let mut j = 0;
+    while j < 3 {
+        c[j] = 1 + i.below(NC as u8) as u64;
+        v[j] = i.below(NV);
+        j += 1;
+    }
+    let p = i.below(6) as usize;
+    let a = i.below(3) as usize;
+    let m = i.below(8);
+    let nv = i.below(NV);
+    // the author always knows its own earlier write
+    i.assume((m >> a) & 1 == 1);
+    i.assume(NA >= 3);
+    if !i.ok {
+        return 2;
+    }
+    let mut vals: Vec<(Vc, u8)> = Vec::new();
+    let mut pos = 0;
+    while pos < 3 {
+        let j = PERMS[p][pos];
+        vals.push((vc_from(|x| if x as usize == j { c[j] } else { 0 }), v[j]));
+        pos += 1;
+    }
+    let mut s: Reg = acc::from_vals(vals);
+    // the context the API derives at an author that holds exactly the observed values
+    let mut avals: Vec<(Vc, u8)> = Vec::new();
+    let mut j = 0;
+    while j < 3 {
+        if (m >> j) & 1 == 1 {
+            avals.push((vc_from(|x| if x as usize == j { c[j] } else { 0 }), v[j]));
+        }
+        j += 1;
+    }
+    let author: Reg = acc::from_vals(avals);
+    let op = author.write(nv, author.read().derive_add_ctx(a as u8));
+    let want_clock = |x: u8| {
+        let xx = x as usize;
+        let base = if xx < 3 && (m >> xx) & 1 == 1 { c[xx] } else { 0 };
+        if xx == a { base + 1 } else { base }
+    };
+    match &op {
+        Op::Put { clock, val } => {
+            if !vc_is(clock, want_clock) || *val != nv {
+                return 0;
+            }
+        }
+    }
+    if s.validate_op(&op).is_err() {
+        return 0;
+    }
+    s.apply(op.clone());
+    // expected: the unobserved stored values (in their stored order or any other) plus the new write
+    let mut want: Vec<(Vc, u8)> = Vec::new();
+    let mut j = 0;
+    while j < 3 {
+        if (m >> j) & 1 == 0 {
+            want.push((vc_from(|x| if x as usize == j { c[j] } else { 0 }), v[j]));
+        }
+        j += 1;
+    }
+    want.push((vc_from(want_clock), nv));
+    let w: Reg = acc::from_vals(want);
+    if !mv_same(&s, &w) {
+        return 0;
+    }
+    let r = s.read();
+    if r.val.len() != acc::vals(&w).len() || !r.val.contains(&nv) {
+        return 0;
+    }
+    if !vc_is(&r.add_clock, |x| {
+        let xx = x as usize;
+        let top = if xx < 3 { c[xx] } else { 0 };
+        if xx == a { top + 1 } else { top }
+    }) {
+        return 0;
+    }
+    // re-delivery changes nothing
+    s.apply(op);
+    if !mv_same(&s, &w) {
+        return 0;
+    }
+    if m == 7 {
+        3 // the write supersedes all three stored values
+    } else if m.count_ones() == 2 {
+        4
+    } else {
+        1
+    }
+}
+
 //@ harness props=C06,C02,C03,C09,C17,C20 covers=3,4 name=MVReg L_merge: merge(SPEC(U,K1), SPEC(U,K2)) == SPEC(U,K1 u K2), both directions, any stored order
 #[no_mangle]
 pub fn h_mvreg_merge(inp: &Inp) -> u8 {
